@@ -519,6 +519,14 @@ def check_C09(res, scratch, tier, seed):
     elif t["status"] != "ok":
         raise Infra("TLC MCLook: %s\n%s" % (t["status"], t["tail"][-2500:]))
     res.add_tlc(t)
+    # --- (D) dynamic lookahead (level 2: situations with contexts merged per set) the same way (Look2.tla)
+    t = run_tlc(scratch, "MCLook2", "SPECIFICATION Spec2\nCONSTANTS\n  GrammarsC <- CuratedL\n  TermsC = {1, 2, 3}\n  MaxPl = %d\nINVARIANTS Look2Sound ContextWithinFollow\nCHECK_DEADLOCK FALSE\n"
+                % (10 if tier == "quick" else 13), "look2", timeout=3000)
+    if t["status"] == "violation":
+        res.violation("spec-invariant:Look2Sound", {"tlc_tail": t["tail"][-3000:]})
+    elif t["status"] != "ok":
+        raise Infra("TLC MCLook2: %s\n%s" % (t["status"], t["tail"][-2500:]))
+    res.add_tlc(t)
     # --- the sets reused from the cache and their fresh re-computations are valid Earley sets (EarleyTrace.tla)
     earley_trace_part(res, scratch, tier, seed + 1, builds, ("C09",), kinds=("curated", "random", "random_err", "random_trans"))
     # --- TLC validates the groups
